@@ -93,13 +93,25 @@ Fixpoint count_true (l : list bool) : nat :=
 Lemma count_true_repeat_false : forall n, count_true (repeat false n) = O.
 Proof. induction n; cbn; auto. Qed.
 
+(** bookkeeper entry [b] has a valid signature on [msg] somewhere in [sigs] *)
+Definition bk_has_valid_sig (msg : N) (sigs : list sigv) (b : bkey) : bool :=
+  existsb (bk_verify b msg) sigs.
+
+Lemma bk_has_valid_sig_genuine : forall msg sigs b, bk_has_valid_sig msg sigs b = true ->
+  exists k, b = BkKey k /\ has_valid_sig msg sigs k = true.
+Proof.
+  intros msg sigs b H. destruct b as [k|p].
+  - exists k. split; [reflexivity | exact H].
+  - unfold bk_has_valid_sig in H. apply existsb_exists in H. destruct H as [x [_ Hx]]. discriminate.
+Qed.
+
 Section MultiSig.
   Variable msg : N.
   Variable allsigs : list sigv.
 
   (** every marked position holds a key with a valid signature in [allsigs] *)
-  Definition marked_ok (keys : list N) (mask : list bool) : Prop :=
-    Forall2 (fun k b => b = true -> has_valid_sig msg allsigs k = true) keys mask.
+  Definition marked_ok (keys : list bkey) (mask : list bool) : Prop :=
+    Forall2 (fun k b => b = true -> bk_has_valid_sig msg allsigs k = true) keys mask.
 
   Lemma scan_inv : forall s keys mask mask',
     In s allsigs -> marked_ok keys mask -> ms_scan msg s keys mask = Some mask' ->
@@ -112,9 +124,9 @@ Section MultiSig.
       injection E as <-. destruct (IH m1 eq_refl) as [I1 I2]. split.
       + constructor; [intros _; apply Hkb; reflexivity | exact I1].
       + cbn [count_true]. rewrite I2. reflexivity.
-    - destruct (sig_verify k msg s) eqn:V.
+    - destruct (bk_verify k msg s) eqn:V.
       + injection E as <-. split.
-        * constructor; [|exact HF]. intros _. unfold has_valid_sig. apply existsb_exists.
+        * constructor; [|exact HF]. intros _. unfold bk_has_valid_sig. apply existsb_exists.
           exists s. split; assumption.
         * reflexivity.
       + destruct (ms_scan msg s ks bs) as [m1|] eqn:E1; cbn in E; [|discriminate].
@@ -140,12 +152,12 @@ Section MultiSig.
   Qed.
 
   Lemma marked_count : forall keys mask, marked_ok keys mask ->
-    (count_true mask <= length (filter (has_valid_sig msg allsigs) keys))%nat.
+    (count_true mask <= length (filter (bk_has_valid_sig msg allsigs) keys))%nat.
   Proof.
     intros keys mask H. induction H as [|k b ks bs Hkb HF IH]; cbn [count_true filter]; [lia|].
     destruct b.
     - rewrite (Hkb eq_refl). cbn [length]. lia.
-    - destruct (has_valid_sig msg allsigs k); cbn [length]; lia.
+    - destruct (bk_has_valid_sig msg allsigs k); cbn [length]; lia.
   Qed.
 
   Lemma marked_ok_init : forall keys, marked_ok keys (repeat false (length keys)).
@@ -159,7 +171,7 @@ Proof. intros. rewrite Nat2Z.id. apply firstn_all. Qed.
     among [sigs] (the count is over positions of [keys], not over distinct keys). *)
 Lemma verify_multi_ok_count : forall msg keys m sigs,
   verify_multi msg keys m sigs = None ->
-  (Z.to_nat m <= length (filter (has_valid_sig msg sigs) keys))%nat.
+  (Z.to_nat m <= length (filter (bk_has_valid_sig msg sigs) keys))%nat.
 Proof.
   intros msg keys m sigs E. unfold verify_multi in E.
   unfold ms_sigs_have, ms_sigs_need, ms_outer_bound, ms_inner_bound, ms_mask_len in E.
@@ -190,12 +202,29 @@ Proof.
   rewrite Z.ltb_irrefl. cbn [orb]. apply ms_loop_no_panic. apply Z.ltb_ge in E. lia.
 Qed.
 
+Lemma bk_forged_no_sig : forall msg sigs p, bk_has_valid_sig msg sigs (BkForged p) = false.
+Proof. intros. unfold bk_has_valid_sig. induction sigs as [|x r IH]; cbn; [reflexivity | exact IH]. Qed.
+
+(** A key list holding nothing but forged keys is never satisfied by a positive threshold: with a
+    key under which the library's verify fails or panics, VerifyMultiSignature returns an error. *)
+Lemma verify_multi_forged_only : forall msg keys m sigs,
+  (forall b, In b keys -> exists p, b = BkForged p) -> (0 < m)%Z ->
+  verify_multi msg keys m sigs <> None.
+Proof.
+  intros msg keys m sigs Hf Hm E. apply verify_multi_ok_count in E.
+  assert (Hz : filter (bk_has_valid_sig msg sigs) keys = []).
+  { clear E. induction keys as [|b r IH]; [reflexivity|]. cbn [filter].
+    destruct (Hf b (or_introl eq_refl)) as [p ->].
+    rewrite bk_forged_no_sig. apply IH. intros b Hb. apply Hf. right. exact Hb. }
+  rewrite Hz in E. cbn in E. lia.
+Qed.
+
 (** * VerifyHeader *)
 
 Lemma verify_header_ok_inv : forall st h, verify_header st h = ROk ->
   exists pm, peer_set_for st h = Some pm /\ NoDup pm /\
     (vh_count_rhs (Z.of_nat (length pm)) <= vh_count_lhs (Z.of_nat (length (h_bookkeepers h))))%Z /\
-    (forall k, In k (h_bookkeepers h) -> In k pm) /\
+    (forall b, In b (h_bookkeepers h) -> In (bk_pid b) pm) /\
     verify_multi (h_msg h) (h_bookkeepers h)
       (vh_multisig_m (Z.of_nat (length (h_bookkeepers h)))) (h_sigs h) = None.
 Proof.
@@ -205,10 +234,10 @@ Proof.
   exists pm. split; [reflexivity|].
   destruct (vh_count_lhs (Z.of_nat (length (h_bookkeepers h))) <? vh_count_rhs (Z.of_nat (length pm)))%Z
     eqn:Ec; [discriminate|].
-  destruct (forallb (fun k => mem k pm) (h_bookkeepers h)) eqn:Ef; cbn [negb] in E; [|discriminate].
+  destruct (forallb (fun b => mem (bk_pid b) pm) (h_bookkeepers h)) eqn:Ef; cbn [negb] in E; [|discriminate].
   destruct (verify_multi (h_msg h) (h_bookkeepers h)
               (vh_multisig_m (Z.of_nat (length (h_bookkeepers h)))) (h_sigs h)) eqn:Em; [discriminate|].
-  repeat split.
+  split; [|split; [|split; [|reflexivity]]].
   - unfold get_consensus_peers in Ep.
     destruct (assoc2 (h_chain h) kh (st_peers st)); cbn in Ep; [|discriminate].
     injection Ep as <-. apply peer_map_NoDup.
@@ -216,50 +245,68 @@ Proof.
   - intros k Hk. rewrite forallb_forall in Ef. apply mem_In. apply Ef. exact Hk.
 Qed.
 
-(** Accepted: every listed bookkeeper is a peer of the stored set and has a valid signature on
-    the header, and three times the LENGTH of the bookkeeper list reaches twice the peer count. *)
+(** Accepted: every listed bookkeeper entry is the GENUINE key of a peer of the stored set (no
+    forged encoding gets through) and has a valid signature on the header, and three times the
+    LENGTH of the bookkeeper list reaches twice the peer count. *)
 Lemma verify_header_ok_general : forall st h, verify_header st h = ROk ->
   exists pm, peer_set_for st h = Some pm /\ NoDup pm /\
     (2 * Z.of_nat (length pm) <= 3 * Z.of_nat (length (h_bookkeepers h)))%Z /\
-    (forall k, In k (h_bookkeepers h) ->
-       In k pm /\ has_valid_sig (h_msg h) (h_sigs h) k = true).
+    (forall b, In b (h_bookkeepers h) ->
+       exists k, b = BkKey k /\ In k pm /\ has_valid_sig (h_msg h) (h_sigs h) k = true).
 Proof.
   intros st h E. destruct (verify_header_ok_inv st h E) as [pm [Hp [Hn [Hc [Hi Hm]]]]].
   exists pm. split; [exact Hp|]. split; [exact Hn|]. split.
   - unfold vh_count_lhs, vh_count_rhs in Hc. lia.
-  - intros k Hk. split; [apply Hi; exact Hk|].
+  - intros b Hb.
     apply verify_multi_ok_count in Hm. unfold vh_multisig_m in Hm.
     assert (Hm' : (length (h_bookkeepers h)
-                   <= length (filter (has_valid_sig (h_msg h) (h_sigs h)) (h_bookkeepers h)))%nat) by lia.
-    apply (filter_length_all _ _ Hm'). exact Hk.
+                   <= length (filter (bk_has_valid_sig (h_msg h) (h_sigs h)) (h_bookkeepers h)))%nat) by lia.
+    pose proof (filter_length_all _ _ Hm' b Hb) as Hv.
+    destruct (bk_has_valid_sig_genuine _ _ _ Hv) as [k [-> Hk]].
+    exists k. split; [reflexivity|]. split; [exact (Hi (BkKey k) Hb) | exact Hk].
 Qed.
 
 (** The distinct bookkeepers all count as signing peers. *)
 Lemma distinct_bookkeepers_sign : forall st h, verify_header st h = ROk ->
   exists pm, peer_set_for st h = Some pm /\ NoDup pm /\
-    (length (nodup N.eq_dec (h_bookkeepers h)) <= length (signing_peers pm h))%nat.
+    (length (nodup N.eq_dec (map bk_pid (h_bookkeepers h))) <= length (signing_peers pm h))%nat.
 Proof.
   intros st h E. destruct (verify_header_ok_general st h E) as [pm [Hp [Hn [_ Hk]]]].
   exists pm. split; [exact Hp|]. split; [exact Hn|].
   apply NoDup_incl_length; [apply NoDup_nodup|].
-  intros k Hin. apply nodup_In in Hin. destruct (Hk k Hin) as [H1 H2].
+  intros k Hin. apply nodup_In in Hin. apply in_map_iff in Hin. destruct Hin as [b [Hb Hin]].
+  destruct (Hk b Hin) as [k' [-> [H1 H2]]]. cbn in Hb. subst k'.
   unfold signing_peers. apply filter_In. split; assumption.
 Qed.
 
-(** Outside the finding class (no key listed twice) the property holds.  The proof only uses
+Lemma NoDup_map_filter : forall {A B} (f : A -> B) (g : A -> bool) l,
+  NoDup (map f l) -> NoDup (map f (filter g l)).
+Proof.
+  induction l as [|x r IH]; cbn [map filter]; intros H; [constructor|].
+  inversion H; subst. destruct (g x); cbn [map]; [|apply IH; assumption].
+  constructor; [|apply IH; assumption]. intros Hin. apply H2.
+  apply in_map_iff in Hin. destruct Hin as [y [Hy Hin]]. apply filter_In in Hin.
+  apply in_map_iff. exists y. tauto.
+Qed.
+
+(** Outside the finding class (no peer id listed twice) the property holds.  The proof only uses
     [2 np <= 3 m] for the translated expressions, so it re-checks under harmless rewrites and
     fails if the source weakens either expression. *)
-Lemma verify_header_partial : forall st h, NoDup (h_bookkeepers h) -> verify_header st h = ROk ->
+Lemma verify_header_partial : forall st h, NoDup (map bk_pid (h_bookkeepers h)) ->
+  verify_header st h = ROk ->
   exists pm, peer_set_for st h = Some pm /\ NoDup pm /\ two_thirds_signed pm h.
 Proof.
   intros st h Hd E. destruct (verify_header_ok_inv st h E) as [pm [Hp [Hn [Hc [Hi Hm]]]]].
   exists pm. split; [exact Hp|]. split; [exact Hn|].
   apply verify_multi_ok_count in Hm.
-  assert (Hl : (length (filter (has_valid_sig (h_msg h) (h_sigs h)) (h_bookkeepers h))
+  assert (Hl : (length (filter (bk_has_valid_sig (h_msg h) (h_sigs h)) (h_bookkeepers h))
                 <= length (signing_peers pm h))%nat).
-  { apply NoDup_incl_length; [apply NoDup_filter; exact Hd|].
-    intros k Hk. apply filter_In in Hk. destruct Hk as [H1 H2].
-    unfold signing_peers. apply filter_In. split; [apply Hi; exact H1 | exact H2]. }
+  { rewrite <- (map_length bk_pid).
+    apply NoDup_incl_length; [apply NoDup_map_filter; exact Hd|].
+    intros k Hk. apply in_map_iff in Hk. destruct Hk as [b [Hb Hk]].
+    apply filter_In in Hk. destruct Hk as [H1 H2].
+    destruct (bk_has_valid_sig_genuine _ _ _ H2) as [k' [-> Hv]]. cbn in Hb. subst k'.
+    unfold signing_peers. apply filter_In. split; [exact (Hi (BkKey k) H1) | exact Hv]. }
   unfold two_thirds_signed. unfold vh_count_lhs, vh_count_rhs in Hc. unfold vh_multisig_m in Hm.
   lia.
 Qed.
@@ -268,7 +315,7 @@ Lemma verify_header_repaired_full : forall st h, verify_header_repaired st h = R
   exists pm, peer_set_for st h = Some pm /\ NoDup pm /\ two_thirds_signed pm h.
 Proof.
   intros st h E. unfold verify_header_repaired in E.
-  destruct (has_dup (h_bookkeepers h)) eqn:Ed; [discriminate|].
+  destruct (has_dup (map bk_pid (h_bookkeepers h))) eqn:Ed; [discriminate|].
   apply verify_header_partial; [apply has_dup_false_NoDup; exact Ed | exact E].
 Qed.
 
@@ -285,53 +332,58 @@ Qed.
 (** * Acceptance: one signature per listed position is enough, whoever is listed *)
 
 Lemma scan_prefix : forall msg k pre post rest,
-  ms_scan msg (SigOf k msg) (pre ++ k :: post) (repeat true (length pre) ++ false :: rest)
+  ms_scan msg (SigOf k msg) (pre ++ BkKey k :: post) (repeat true (length pre) ++ false :: rest)
   = Some (repeat true (length pre) ++ true :: rest).
 Proof.
   intros msg k. induction pre as [|p pre IH]; intros post rest; cbn [app length repeat ms_scan].
-  - cbn [sig_verify]. rewrite !N.eqb_refl. reflexivity.
+  - cbn [bk_verify sig_verify]. rewrite !N.eqb_refl. reflexivity.
   - rewrite IH. reflexivity.
 Qed.
 
 Lemma loop_positional : forall msg post pre,
-  ms_loop msg (pre ++ post) (length post) (map (fun k => SigOf k msg) post)
+  ms_loop msg (pre ++ map BkKey post) (length post) (map (fun k => SigOf k msg) post)
           (repeat true (length pre) ++ repeat false (length post)) = None.
 Proof.
   intros msg. induction post as [|k post IH]; intros pre; cbn [length map ms_loop repeat]; [reflexivity|].
   rewrite scan_prefix.
-  replace (pre ++ k :: post) with ((pre ++ [k]) ++ post) by (rewrite <- app_assoc; reflexivity).
+  replace (pre ++ BkKey k :: map BkKey post) with ((pre ++ [BkKey k]) ++ map BkKey post)
+    by (rewrite <- app_assoc; reflexivity).
   replace (repeat true (length pre) ++ true :: repeat false (length post))
-    with (repeat true (length (pre ++ [k])) ++ repeat false (length post)).
+    with (repeat true (length (pre ++ [BkKey k])) ++ repeat false (length post)).
   - apply IH.
   - rewrite app_length. cbn [length]. rewrite repeat_app. cbn [repeat].
     rewrite <- app_assoc. reflexivity.
 Qed.
 
 Lemma verify_multi_positional : forall msg keys,
-  verify_multi msg keys (vh_multisig_m (Z.of_nat (length keys))) (map (fun k => SigOf k msg) keys) = None.
+  verify_multi msg (map BkKey keys) (vh_multisig_m (Z.of_nat (length (map BkKey keys))))
+               (map (fun k => SigOf k msg) keys) = None.
 Proof.
   intros msg keys. unfold verify_multi, vh_multisig_m.
   unfold ms_sigs_have, ms_sigs_need, ms_outer_bound, ms_inner_bound, ms_mask_len.
-  rewrite map_length, !Z.ltb_irrefl. cbn [orb]. rewrite firstn_len, Nat2Z.id.
+  rewrite !map_length, !Z.ltb_irrefl. cbn [orb].
+  rewrite <- (map_length BkKey keys) at 1 3. rewrite firstn_len, map_length, Nat2Z.id.
   exact (loop_positional msg keys []).
 Qed.
 
-(** Any list of peers of the stored set, long enough and each position signed, is accepted —
-    whether or not the list repeats a peer. *)
-Lemma verify_header_accepts : forall st h pm,
+(** Any list of (genuinely encoded) peers of the stored set, long enough and each position signed,
+    is accepted — whether or not the list repeats a peer. *)
+Lemma verify_header_accepts : forall st h pm ks,
   peer_set_for st h = Some pm ->
-  (forall k, In k (h_bookkeepers h) -> In k pm) ->
-  (2 * Z.of_nat (length pm) <= 3 * Z.of_nat (length (h_bookkeepers h)))%Z ->
-  h_sigs h = map (fun k => SigOf k (h_msg h)) (h_bookkeepers h) ->
+  h_bookkeepers h = map BkKey ks ->
+  (forall k, In k ks -> In k pm) ->
+  (2 * Z.of_nat (length pm) <= 3 * Z.of_nat (length ks))%Z ->
+  h_sigs h = map (fun k => SigOf k (h_msg h)) ks ->
   verify_header st h = ROk.
 Proof.
-  intros st h pm Hp Hi Hc Hs. unfold peer_set_for in Hp. unfold verify_header.
+  intros st h pm ks Hp Hb Hi Hc Hs. unfold peer_set_for in Hp. unfold verify_header.
   destruct (find_key_height st (h_height h) (h_chain h)) as [kh|]; [|discriminate].
-  rewrite Hp.
-  replace (vh_count_lhs (Z.of_nat (length (h_bookkeepers h))) <? vh_count_rhs (Z.of_nat (length pm)))%Z
-    with false by (symmetry; apply Z.ltb_ge; unfold vh_count_lhs, vh_count_rhs; lia).
-  replace (forallb (fun k => mem k pm) (h_bookkeepers h)) with true
-    by (symmetry; apply forallb_forall; intros k Hk; apply mem_In; apply Hi; exact Hk).
+  rewrite Hp, Hb.
+  replace (vh_count_lhs (Z.of_nat (length (map BkKey ks))) <? vh_count_rhs (Z.of_nat (length pm)))%Z
+    with false by (symmetry; apply Z.ltb_ge; rewrite map_length; unfold vh_count_lhs, vh_count_rhs; lia).
+  replace (forallb (fun b => mem (bk_pid b) pm) (map BkKey ks)) with true
+    by (symmetry; apply forallb_forall; intros b Hin; apply in_map_iff in Hin;
+        destruct Hin as [k [<- Hk]]; apply mem_In; apply Hi; exact Hk).
   cbn [negb]. rewrite Hs, verify_multi_positional. reflexivity.
 Qed.
 
@@ -411,7 +463,7 @@ Qed.
 (** * The witness of the finding *)
 Definition f12_store : hstore := mkStore [(1, [0])] [((1, 0), [1; 2; 3; 4])].
 Definition f12_header : xheader :=
-  mkHeader 1 5 7 [1; 1; 1] [SigOf 1 7; SigOf 1 7; SigOf 1 7] PNone.
+  mkHeader 1 5 7 [BkKey 1; BkKey 1; BkKey 1] [SigOf 1 7; SigOf 1 7; SigOf 1 7] PNone.
 
 Lemma f12_accepted : verify_header f12_store f12_header = ROk.
 Proof. vm_compute. reflexivity. Qed.
